@@ -52,6 +52,14 @@ fn bins() -> NodeBins {
         release: std::env::var("MCSIM_NODE_RELEASE")
             .map(PathBuf::from)
             .unwrap_or_else(|_| base.join("release/masscanned")),
+        shim: {
+            let p = root().join(".cache/clock_shim.so");
+            if p.exists() && std::env::var("VERIF_NO_SHIM").is_err() {
+                Some(p)
+            } else {
+                None
+            }
+        },
     }
 }
 
@@ -484,7 +492,7 @@ fn cmd_check(prop: &str, tier: &str) -> i32 {
             "event_log_hash": format!("{:016x}", log_hash),
             "workers": workers,
             "components_real": ["reply() and everything below it: L2-L4, SYN cookie, connection table, smack matcher, all protocol handlers, both loggers, pnet packet code, chrono/flate2/siphasher - built from /repo's working tree with --cfg masscanned_verif (debug and release)"],
-            "components_stubbed": ["pnet datalink rx/tx and the receive loop body (mirrored by the driver)", "CLI and IP-list file parsing (configuration injected)", "wall clock source (simulated)", "stderr log back-end (formatting sink)"],
+            "components_stubbed": ["pnet datalink rx/tx and the receive loop body (mirrored by the driver)", "CLI and IP-list file parsing (configuration injected)", "clock sources: wall clock and monotonic clock are simulated (shadowed imports in the guarded hook, plus an LD_PRELOAD shim answering clock_gettime/gettimeofday/time for every other read)", "stderr log back-end (formatting sink)"],
         },
         "assumptions": [
             "a clean batch is evidence, not proof: seeded sampling of schedules, faults, inputs and configurations",
